@@ -79,6 +79,15 @@ def derives_only_from_param(ctx: Ctx, f: Func, t: Term, pname: str) -> bool:
 def check_weights_pipeline(ctx: Ctx, f: Func, wt: Term) -> tuple[bool, str, Term | None]:
     """weights == normalise(zero_under_failed(X)); returns (ok, why, X)."""
     w = split_normalised(wt)
+    if w is None and wt[0] == "call":
+        # the pipeline may live in a private helper (`weights = _normalize(weights, failed)`): look at its value
+        try:
+            wt2 = ctx.X.force_inline(wt, f, effects=True)
+        except Exception:  # noqa: BLE001
+            wt2 = wt
+        if wt2 != wt:
+            wt = wt2
+            w = split_normalised(wt)
     if w is None:
         return False, f"weights `{show(wt, 110)}` are not divided by their own sum: they do not sum to one after failures / filtering", None
     z = split_zeroed(w)
